@@ -39,6 +39,7 @@ func Main(v int) string {
   feature extra;
   typedef level { type enumeration { enum low; enum mid { value 5; } enum high; } default mid; }
   typedef flags { type bits { bit a; bit b { position 4; } bit c; } }
+  typedef notname { type string { pattern "[a-z][a-z0-9]*"%[3]s; } }
   identity local-id { base l:base-id; }
   identity kind; identity kz { base kind; } identity ka { base kind; } identity km { base kind; } identity kb { base kind; }
   identity sub-kind { base kz; } identity sub-kind2 { base kz; base ka; }
@@ -50,6 +51,7 @@ func Main(v int) string {
     leaf name { type l:name; mandatory true; }
     leaf load { type l:pct; }
     leaf lvl { type level; }
+    leaf nn { type notname; }
     leaf fl { type flags; }
     leaf ratio { type decimal64 { fraction-digits 3; range "-10.0..10.0"; } }
     leaf big { type uint64; }
@@ -84,7 +86,7 @@ func Main(v int) string {
   rpc ping { input { leaf msg { type string; } } output { leaf reply { type string; } } }
   notification beat { leaf seq { type int32; } }
 }
-`, v, 1+v%8)
+`, v, 1+v%8, []string{"", " { modifier invert-match; }"}[(v/3)%2])
 }
 
 // Sub is a module with a submodule, loaded through include.
@@ -228,7 +230,7 @@ func dumpDefs(b *strings.Builder, p meta.HasDataDefinitions, ind string) {
 				fmt.Fprintf(b, " length=%s", r.String())
 			}
 			for _, p := range t.Patterns() {
-				fmt.Fprintf(b, " pattern=%q", p.Pattern)
+				fmt.Fprintf(b, " pattern=%q inverted=%v", p.Pattern, p.Inverted())
 			}
 			for _, e := range t.Enum() {
 				fmt.Fprintf(b, " enum=%s:%d", e.Label, e.Id)
